@@ -1423,6 +1423,13 @@ def mt_scenario(g, sid, ty):
         lines += opt_lines(gssvx_opts(g, Cond=1, IterRefine=r.choice([1, 2]), PivotGrowth=1)) + g.rhs_lines(B, n, 2, n, cplx) + ["nowork", "call gssvx"]
     elif kind == "gsisx":
         o = {"iludefault": 0, "ColPerm": r.choice([NATURAL, COLAMD]), "RowPerm": r.choice([0, 1]), "Cond": 1}
+        if r.random() < 0.3 and not ty in "sc":
+            # two rows scaled far down: the large-diagonal permutation reports "scaling factors too large" and the driver
+            # goes on without it (its other exit path)
+            rows = r.sample(range(n), min(2, n))
+            A = {kk: ((v[0] * 2.0 ** -560, v[1] * 2.0 ** -560) if kk[0] in rows else v) for kk, v in A.items()}
+            lines = ["tune " + " ".join(map(str, g.tune()))] + g.mat_lines(A, n, n, "NC", cplx)
+            o["RowPerm"] = 1
         if r.random() < 0.6:      # modified ILU with real dropping: the compensation and its damping factor are exercised
             o.update({"MILU": r.choice([1, 2, 3]), "MILUDim": float(r.choice([2.0, 3.0])), "DropTol": float(r.choice([2.0 ** -4, 0.25, 0.5])),
                       "DropRule": r.choice([DROP_BASIC, DROP_BASIC | DROP_AREA, DROP_BASIC | DROP_PROWS])})
